@@ -1,5 +1,5 @@
 #!/bin/bash
 # neutral_own.sh : every verified neutral patch against the check of its own property (fast form of neutral_patches.sh)
 cd "$(dirname "$0")/.."
-ls neutral | xargs -P 12 -I{} sh -c 'id={}; tools/onpatch.sh neutral/$id/patch.diff $(echo $id | cut -c1-3) > /tmp/no_$id.out 2>&1'
-n=0; for d in neutral/C*; do id=$(basename $d); h=$(head -1 /tmp/no_$id.out); if [ -n "$h" ]; then n=$((n+1)); echo "== $id: $h $(sed -n 2p /tmp/no_$id.out | cut -c1-230)"; fi; done; echo "alarms: $n"
+ls neutral | xargs -P 12 -I{} sh -c 'id={}; tools/onpatch.sh neutral/$id/patch.diff $(echo $id | cut -c1-3) > /root/scratch/no_$id.out 2>&1'
+n=0; for d in neutral/C*; do id=$(basename $d); h=$(head -1 /root/scratch/no_$id.out); if [ -n "$h" ]; then n=$((n+1)); echo "== $id: $h $(sed -n 2p /root/scratch/no_$id.out | cut -c1-230)"; fi; done; echo "alarms: $n"
